@@ -270,7 +270,8 @@ let run (line : string) : string =
   | "oneof_free" -> show_bool (oneof_free (parse_shape a.(1)))
   | "nodup" -> show_bool (nodup_keys (parse_doc a.(1)))
   | "conflict_free" -> show_bool (conflict_free (parse_doc a.(1)))
-  | op -> Genops.run op a
+  (* ---- text level (ocaml/textops.ml) ---- *)
+  | op -> (match Textops.run shape_str parse_shape parse_doc op a with Some r -> r | None -> Genops.run op a)
 
 let () =
   try
